@@ -111,6 +111,19 @@ def run(rec, cfg):
             out = str(tree)
         except Exception as e:
             out = type(e).__name__
+        if rng.random() < 0.12 and s:
+            # the same decision on a parser that has already read near-identical strings: padding
+            # removed, and padding inserted at a random position (inside a number, inside 'sgn')
+            shared = ExpressionParser()
+            i = rng.randrange(len(s) + 1)
+            variants = [s, s.replace(" ", ""), s[:i] + " " + s[i:], s]
+            rng.shuffle(variants)
+            for v in variants:
+                rec.arm("workload:shared-parser-variant")
+                try:
+                    shared.parse(v)
+                except Exception:
+                    pass
         if rng.random() < 0.003:
             rec.sample({"source": src, "text": s[:100], "implementation": out[:100]})
     rec.notes["token_bigrams_seen"] = len(bigrams)
